@@ -239,6 +239,11 @@ func processORG(env *Pass1, operands []ast.Exp) {
 	size := numExp.Value // Value is int64
 	env.LOC = int32(size)
 	env.DollarPosition += uint32(size) // エントリーポイントのアドレスを加算
+	// どの ocode からこのアドレスになるかを codegen に伝える (DollarPosition の合計だけでは、2つ目の ORG の
+	// 後ろで codegen のアドレス (分岐の変位、ALIGNB) が pass1 の LOC とずれる)
+	if oc, ok := env.Client.(interface{ SetOrigin(origin uint32) }); ok {
+		oc.SetOrigin(uint32(size))
+	}
 	// ORG does not emit ocode
 }
 
